@@ -81,14 +81,15 @@ def run_case(case):
         else:
             nsw = [1] * nlev
             ctrl, rec = sc.make_controller(P, nlev, case['maxiter'], nsw, None if nlev == 1 else rng.choice([None, 'pfasst_burnin']),
-                                           True, False, dt=case['dt'], lam=-0.5)
+                                           True, False, dt=case['dt'], lam=-0.5, own_dt=bool(case.get('own_dt')))
             conv = {}
             for b in range(400):
                 for s in range(P):
                     for i in range(case['maxiter']):
                         if rng.random() < case['conv_p']:
                             conv[(b, s, i)] = True
-            script = sc.Script(conv=conv, restart={k: True for k in case['restarts']}, dt_new=dict(case['dtnew']))
+            script = sc.Script(conv=conv, restart={k: True for k in case['restarts']}, dt_new=dict(case['dtnew']),
+                               step_dt=dict(case.get('step_dt') or []))
         res = sc.run_scripted(ctrl, rec, script, case['t0'], case['tend'], u0=1.0, max_events=60000)
     except Exception as ex:
         out['error'] = 'setup: %r' % ex
@@ -205,7 +206,8 @@ def oracle(out):
     if end < tend - TOL:     # the controller's own tolerance, evaluated in double precision as the code does
         bad.append(('stops_early', '', 'last accepted step ends at %r < Tend - 10 eps (Tend = %r)' % (end, tend)))
     # step count for a fixed step size
-    fixed = not case['restarts'] and not case['dtnew'] and all(x['dt'] == case['dt'] for x in acc)
+    fixed = (not case['restarts'] and not case['dtnew'] and not case.get('step_dt')
+             and all(x['dt'] == case['dt'] for x in acc))
     if fixed and not case.get('paradiag'):
         dt = case['dt']
         # "up to rounding": the rounding of ONE evaluation of t0 + N*dt (a few ulps), not the error accumulated by N additions
@@ -293,7 +295,8 @@ Definition check_case (pd : bool) orc (fuel : nat) (t0 tend : float) (dts : list
 def gen_cases(rng, thorough):
     cases = []
     def add(**kw):
-        c = dict(P=1, nlev=1, t0=0.0, dt=0.1, tend=1.0, maxiter=1, conv_p=0.5, restarts=[], dtnew=[], paradiag=False)
+        c = dict(P=1, nlev=1, t0=0.0, dt=0.1, tend=1.0, maxiter=1, conv_p=0.5, restarts=[], dtnew=[], paradiag=False,
+                 own_dt=False, step_dt=[])
         c.update(kw)
         c['seed'] = rng.randrange(1 << 30)
         cases.append(c)
@@ -334,6 +337,37 @@ def gen_cases(rng, thorough):
                 dtnew.append(((rng.randint(0, 6), rng.randint(0, P - 1)), dt * rng.choice([0.5, 0.7, 0.9, 0.25])))
         add(P=P, nlev=nlev, t0=t0, dt=dt, tend=tend, maxiter=rng.randint(1, 2), conv_p=rng.choice([0.2, 0.6, 1.0]),
             restarts=sorted(set(restarts)), dtnew=dtnew)
+    # DIFFERENT step sizes for the individual steps of one block ("any sequence of ... step-size changes"):
+    #  (a) directly in prepare_next_block (ScriptedDtCC, after the spreading controller),
+    #  (b) per-step level.status.dt_new with the spreading controller replaced by OwnDtSpreader
+    for P, t0, dt, tend, sd in [(3, 0.0, 0.25, 3.0, [((0, 0), 0.25), ((0, 1), 0.125), ((0, 2), 0.5)]),
+                                (2, 1.0, 0.1, 2.0, [((1, 0), 0.05), ((1, 1), 0.2)])]:
+        add(P=P, t0=t0, dt=dt, tend=tend, step_dt=sd)
+    for _ in range(60 if thorough else 24):
+        P = rng.randint(2, 6)
+        t0 = rng.choice([0.0, round(rng.uniform(0, 3), 2), rng.uniform(-50, 50)])
+        dt = rng.choice([0.1, 0.25, 0.2, rng.uniform(0.05, 0.5)])
+        tend = t0 + rng.uniform(2, 6) * P * dt
+        facs = [1.0, 0.5, 0.75, 1.25, 0.3, 0.9, 1.5]
+        restarts = sorted({(rng.randint(0, 4), rng.randint(0, P - 1)) for _ in range(rng.choice([0, 0, 1, 2]))})
+        if rng.random() < 0.5:
+            sd = []
+            for b in sorted(rng.sample(range(0, 5), rng.randint(1, 3))):
+                f0 = rng.randrange(len(facs))
+                for s in range(P):
+                    if rng.random() < 0.8:
+                        sd.append(((b, s), dt * facs[(f0 + s) % len(facs)]))
+            add(P=P, nlev=rng.choice([1, 2]), t0=t0, dt=dt, tend=tend, maxiter=rng.randint(1, 2), conv_p=rng.choice([0.3, 1.0]),
+                restarts=restarts, step_dt=sd)
+        else:
+            dn = []
+            for b in sorted(rng.sample(range(0, 5), rng.randint(1, 3))):
+                f0 = rng.randrange(len(facs))
+                for s in range(P):
+                    if rng.random() < 0.8:
+                        dn.append(((b, s), dt * facs[(f0 + s) % len(facs)]))
+            add(P=P, nlev=rng.choice([1, 2]), t0=t0, dt=dt, tend=tend, maxiter=rng.randint(1, 2), conv_p=rng.choice([0.3, 1.0]),
+                restarts=restarts, dtnew=dn, own_dt=True)
     # ParaDiag controller: whole block activated
     for P, dt, tend in [(4, 0.1, 0.25), (4, 0.1, 0.8), (3, 0.125, 0.5)]:
         add(P=P, t0=0.0, dt=dt, tend=tend, paradiag=True)
@@ -362,7 +396,7 @@ def run(ck):
     for out in outs:
         case = out['case']
         key = (case['P'], case['nlev'], fhex(case['t0']), fhex(case['dt']), fhex(case['tend']), tuple(case['restarts']),
-               tuple(map(tuple, case['dtnew'])), case['paradiag'])
+               tuple(map(tuple, case['dtnew'])), case['paradiag'], case['own_dt'], tuple(map(tuple, case['step_dt'])))
         if out.get('outcome') != 'ok':
             ck.case(key=key, nontrivial=False)
             name = 'controller_ParaDiag_nonMPI' if case.get('paradiag') else 'controller_nonMPI'
@@ -374,7 +408,9 @@ def run(ck):
         ck.case(key=key, nontrivial=len(out['accepted']) >= 2,
                 sample={'case': {k: case[k] for k in ('P', 'nlev', 't0', 'dt', 'tend', 'restarts', 'paradiag')},
                         'blocks': len(out['blocks']), 'accepted': len(out['accepted'])})
-        h = 'paradiag' if case['paradiag'] else ('restart' if case['restarts'] else 'dtnew' if case['dtnew'] else 'fixed')
+        mixed = any(len(set(b['dt'])) > 1 for b in out['blocks'])
+        h = ('paradiag' if case['paradiag'] else 'mixed_dt_in_block' if mixed else
+             'restart' if case['restarts'] else 'dtnew' if case['dtnew'] or case['step_dt'] else 'fixed')
         hist[h] = hist.get(h, 0) + 1
         for kind, cause, detail, name in probs:
             fk = (kind, cause, name)
